@@ -28,6 +28,7 @@ def reset_backend():
         import torch.serialization as ser
         L.reset()
         ser.reset()
+        torch._tensor.FLOAT_MODE[0] = False
     else:
         _real_log.clear()
 
@@ -95,9 +96,10 @@ def from_list(data, dtype=None):
         import numpy as np
         arr = np.array(data, dtype=object)
         flat = arr.reshape(-1)
+        fm = torch._tensor.FLOAT_MODE[0]
         for i in range(flat.size):
             v = flat[i]
-            flat[i] = v if isinstance(v, symex.SymNum) else Fraction(symex.lift(v))
+            flat[i] = v if isinstance(v, symex.SymNum) else (float(v) if fm else Fraction(symex.lift(v)))
         return torch.Tensor(arr, dtype or torch.get_default_dtype())
     data = _tofloat(data)
     return torch.tensor(data, dtype=dtype or torch.get_default_dtype())
